@@ -265,6 +265,10 @@ pub struct Stats {
     pub inflight_sends: Vec<u64>,
     /// (stream, start time) of receive calls that had begun but not returned at that moment
     pub inflight_recvs: Vec<(u32, u64)>,
+    /// (handle is a receiver, handle, stream, start time) of drop / unsubscribe calls that had begun
+    /// but not returned at that moment
+    #[serde(default)]
+    pub inflight_drops: Vec<(bool, u32, u32, u64)>,
 }
 
 pub struct TxH {
@@ -381,6 +385,14 @@ impl Ctx {
         if kind.is_recv() {
             self.sh.lock().stats.inflight_recvs.push((stream, t0));
         }
+        let removal = match kind {
+            CallKind::DropRx | CallKind::UnsubRx => Some(true),
+            CallKind::DropTx | CallKind::UnsubTx => Some(false),
+            _ => None,
+        };
+        if let Some(is_rx) = removal {
+            self.sh.lock().stats.inflight_drops.push((is_rx, handle, stream, t0));
+        }
         let (r, res) = {
             let _count = crate::mem::Count::on();
             match self.solo_bound() {
@@ -390,6 +402,12 @@ impl Ctx {
         };
         let t1 = self.tick();
         sched().set_activity(Act::default());
+        if let Some(is_rx) = removal {
+            let mut l = self.sh.lock();
+            if let Some(p) = l.stats.inflight_drops.iter().rposition(|x| *x == (is_rx, handle, stream, t0)) {
+                l.stats.inflight_drops.swap_remove(p);
+            }
+        }
         if kind.is_recv() {
             let mut l = self.sh.lock();
             if let Some(p) = l.stats.inflight_recvs.iter().rposition(|x| *x == (stream, t0)) {
